@@ -153,8 +153,14 @@ def install_builtins(I):
     @nf("set")
     def _set(interp, x=()):
         items = interp.iterate(x)
+        if any(isinstance(i, Obj) for i in items) and not any(isinstance(i, SV) for i in items):
+            interp.assumptions.add("set of interpreted objects: membership by identity (value-equal distinct objects are not merged)")
+            out = []
+            for i in items:
+                if not any(i is o for o in out):
+                    out.append(i)
+            return interp.note_fresh(out)  # list-backed set, iteration in insertion order
         if interp._has_sym(*items):
-            # keep as a list-backed "set" only if trivially distinct objects
             raise Unsupported("set of symbolic values")
         return interp.note_fresh(interp.native(lambda: set(items)))
 
@@ -259,8 +265,13 @@ def install_builtins(I):
 
     @nf("hash")
     def _hash(interp, o):
-        if isinstance(o, (SV, Obj)):
-            raise Unsupported("hash of symbolic/interpreted object")
+        if isinstance(o, SV):
+            raise Unsupported("hash of symbolic value")
+        if isinstance(o, Obj):
+            f, _ = o.cls.lookup("__hash__")
+            if f is not None:
+                return interp.call(BoundMethod(f, o), [], {})
+            return id(o)  # identity hash (objects without __hash__/__eq__)
         return hash(o)
 
     @nf("print")
@@ -880,6 +891,17 @@ def install_builtins(I):
     NM["functools"] = dict(reduce=NativeFn(_reduce, "reduce"), cache=ident, lru_cache=NativeFn(lambda interp, *a, **k: ident if not (a and isinstance(a[0], FuncV)) else a[0], "lru_cache"),
                            partial=NativeFn(lambda interp, f, *a, **k: NativeFn(lambda interp_, *b, **kk: interp_.call(f, list(a) + list(b), {**k, **kk}), "partial"), "partial"),
                            cached_property=NativeFn(lambda interp, f: PropertyV(f), "cached_property"), wraps=NativeFn(lambda interp, f: ident, "wraps"))
+    class DDict(dict):
+        """collections.defaultdict: the factory is an interpreted callable"""
+        factory = None
+
+    def _defaultdict(interp, factory=None, *a, **k):
+        d = DDict()
+        d.factory = factory
+        return interp.note_fresh(d)
+
+    I.DDict = DDict
+    NM["collections"] = dict(defaultdict=NativeFn(_defaultdict, "defaultdict"), OrderedDict=B["dict"])
     NM["warnings"] = dict(warn=NativeFn(lambda interp, *a, **k: None, "warn"))
     NM["sys"] = dict(stderr=Opaque("stderr"), stdout=Opaque("stdout"), argv=[])
     NM["copy"] = dict(copy=NativeFn(lambda interp, x: interp.note_fresh(list(x)) if isinstance(x, list) else interp.note_fresh(dict(x)) if isinstance(x, dict) else x, "copy"))
